@@ -13,6 +13,8 @@ import ElysModel.Gen.Arith.getFundingPaymentRates
 import ElysModel.Gen.Arith.getLiquidationPrice
 import ElysModel.Gen.Arith.calcMTPTakeProfitCustody
 import ElysModel.Gen.Arith.calcMinCollateral
+import ElysModel.Gen.Arith.getBorrowInterestAmountAsCustodyAsset
+import ElysModel.Gen.Arith.calcMTPTakeProfitBorrowFactor
 import ElysModel.Gen.Arith.Table
 import ElysModel.Lemmas.GenTie
 import ElysModel.Lemmas.AmmBase
@@ -204,6 +206,43 @@ theorem take_profit_custody_nonneg (tp pos liab r : Int) (htp : 0 < tp) (hl : 0 
     subst e
     unfold Dec.mul
     exact Int.tdiv_nonneg (monotone_round2_le _ (Int.mul_nonneg (Int.mul_nonneg hl (by omega)) (by omega))) (by omega)
+
+/-- the borrow interest a position owes, expressed in its custody asset (x/perpetual/types/types.go `GetBorrowInterestAmountAsCustodyAsset`, what
+`SettleMTPBorrowInterestUnpaidLiability` takes out of the custody): never negative for a non-negative unpaid interest and a positive price,
+on both sides; and a long at a price of zero is refused, not divided. -/
+theorem interest_in_custody_nonneg (price pos unpaid r : Int) (hp0 : 0 < price) (hu : 0 ≤ unpaid)
+    (h : Gen.Arith.getBorrowInterestAmountAsCustodyAsset price pos unpaid = .ok r) : 0 ≤ r := by
+  have hp : 0 < P := P_pos
+  unfold Gen.Arith.getBorrowInterestAmountAsCustodyAsset at h
+  have h0 : price ≠ 0 := by omega
+  by_cases h1 : pos = 1
+  · simp only [h1, h0, if_true, if_false] at h
+    obtain ⟨t1, ht1, h⟩ := bind_ok h
+    cases h
+    unfold quoC at ht1
+    simp only [h0, if_false] at ht1
+    have e := chk_ok ht1
+    subst e
+    unfold Dec.quo
+    exact Int.tdiv_nonneg (monotone_round2_le _ (Int.tdiv_nonneg (Int.mul_nonneg (Int.mul_nonneg (Int.mul_nonneg hu (by omega)) (by omega)) (by omega)) (by omega))) (by omega)
+  · simp only [h1, if_false] at h
+    obtain ⟨t2, ht2, h⟩ := bind_ok h
+    cases h
+    unfold mulC at ht2
+    have e := chk_ok ht2
+    subst e
+    unfold Dec.mul
+    exact Int.tdiv_nonneg (monotone_round2_le _ (Int.mul_nonneg (Int.mul_nonneg hu (by omega)) (by omega))) (by omega)
+
+theorem interest_in_custody_no_price (unpaid : Int) : ∃ e, Gen.Arith.getBorrowInterestAmountAsCustodyAsset 0 1 unpaid = .error e := ⟨_, rfl⟩
+
+/-- the take-profit borrow factor (mtp_take_profit_borrow_factor.go) is exactly 1 for a position whose take-profit price is infinite or unset,
+and a position without custody has none (refused before the division). -/
+theorem borrow_factor_edge_cases (cust tp pos liab : Int) (inf : Bool) (hc : cust ≠ 0) :
+    Gen.Arith.calcMTPTakeProfitBorrowFactor cust true tp pos liab = .ok P ∧ Gen.Arith.calcMTPTakeProfitBorrowFactor cust inf 0 pos liab = .ok P ∧
+    Gen.Arith.calcMTPTakeProfitBorrowFactor 0 inf tp pos liab = .error .badArgs := by
+  unfold Gen.Arith.calcMTPTakeProfitBorrowFactor
+  refine ⟨?_, ?_, ?_⟩ <;> simp [hc, pure, Except.pure]
 
 /-- balanced open interest pays the base rate; a one-sided market pays the maximum. -/
 theorem funding_rate_cases (a base mx mn : Int) (ha : 0 < a) :
